@@ -105,7 +105,7 @@ theorem pushToDatasource_local (db : Db) : LocalOK db pushToDatasourceLocal := b
             simp only [Option.some.injEq, Prod.mk.injEq] at heq
             obtain ⟨rfl, rfl, _⟩ := heq
             simp only [Good, UnGood, LeafGood, schema_leaf] at hg
-            obtain ⟨hpreds, hs, he⟩ := hg
+            obtain ⟨hnd, ⟨_, hpreds, htab⟩, hs, he⟩ := hg
             subst hs
             have hfp : ∀ c ∈ splitByAnd e, ExprOK (s.fields ++ outer) c := fun c hc => exprOK_conjunct he hc
             have hpush : ExprsOK (s.fields ++ outer) (preds ++ (splitByAnd e).filter isEqConst) := by
@@ -115,7 +115,7 @@ theorem pushToDatasource_local (db : Db) : LocalOK db pushToDatasourceLocal := b
               · exact hfp x (List.mem_filter.mp hx).1
             have hgout : Good db (.leaf s (.ds name alias pol (preds ++ (splitByAnd e).filter isEqConst) mapping)) outer := by
               simp only [Good, LeafGood]
-              exact hpush
+              exact ⟨hnd, hpush, htab⟩
             have hrej : ∀ c ∈ (splitByAnd e).filter (fun p => !isEqConst p),
                 ExprOK ((Plan.leaf s (.ds name alias pol (preds ++ (splitByAnd e).filter isEqConst) mapping)).fields ++ outer) c := by
               intro c hc
@@ -295,7 +295,7 @@ theorem optFilterNL_ok {db : Db} {scope fs : List String} {cs : List PExpr} {p :
   · have hpe : ExprOK (p.fields ++ scope) (setNonLevel0 fs (.nary .and cs)) := exprOK_setNonLevel0 (exprOK_and hcs)
     refine ⟨?_, rfl, ?_⟩
     · simp only [Good, UnGood, true_and]
-      exact ⟨hg, hpe⟩
+      exact ⟨hg.nodup, hg, hpe⟩
     · intro cx hb
       simp only [denote, unRows]
       cases hd : denote db p cx with
@@ -328,7 +328,7 @@ theorem pushIntoLookupJoin_local (db : Db) : LocalOK db pushIntoLookupJoinLocal 
     simp only [Option.some.injEq, Prod.mk.injEq] at h
     obtain ⟨rfl, _⟩ := h
     simp only [Good, UnGood, BinGood, schema_bin] at hg
-    obtain ⟨⟨hgs, hgj, ⟨hs2, hdisj⟩, htot⟩, hs, he⟩ := hg
+    obtain ⟨hnd, ⟨_, hgs, hgj, ⟨hs2, hdisj⟩, htot⟩, hs, he⟩ := hg
     subst hs
     rw [hs2] at he
     let usesJ := fun c => usesVariablesFromSchema joined.fields (varsUsed c)
@@ -353,7 +353,7 @@ theorem pushIntoLookupJoin_local (db : Db) : LocalOK db pushIntoLookupJoinLocal 
     show StepOK db outer _ (Plan.bin s .ljoin (optFilter pS src) (optFilterNL src.fields pJ joined))
     refine ⟨?_, rfl, ?_⟩
     · simp only [Good, BinGood, hlf, hjf]
-      refine ⟨hl1, hj1, ⟨hs2, hdisj⟩, ?_⟩
+      refine ⟨hnd, hl1, hj1, ⟨hs2, hdisj⟩, ?_⟩
       intro cx hb
       rw [hj3 cx hb]
       have := htot cx hb
